@@ -8,6 +8,7 @@ import random
 import time
 
 ID = 'C05'
+TECHNIQUE = 'runtime monitor: CPU-time bound per regex builtin call with a parent-side hard watchdog reading /proc CPU before killing'
 BOUND_CONST, BOUND_PER_PATTERN_CHAR, BOUND_PER_SUBJECT_CHAR = 0.6, 50e-6, 5e-6
 RULE = ('(function, pattern, subject, flags) with function in {match, match_groups, match_all}; pattern families: nested and overlapping quantifiers, '
         'alternations, counted repeats, (a?){n}a{n}, back-references, lookaround with quantified bodies, atomic/possessive groups, recursion, fuzzy and reverse '
